@@ -40,6 +40,7 @@ def plan(tier, seed):
     for i, fw in enumerate(("twisted", "asyncio")):
         for sh in range(3 if tier == "quick" else 8):
             jobs.append({"func": "flows", "fw": fw, "name": "flows/%s/%d" % (fw, sh), "args": {"seed": seed * 1000 + i * 100 + sh, "n": n, "xors": 1 if tier == "quick" else 3}})
+        jobs.append({"func": "unencodable", "fw": fw, "name": "unencodable/" + fw, "args": {}})
     return jobs
 
 
@@ -441,6 +442,93 @@ def check_flow(c, n_xors=1):
         p.close()
 
 
+def unencodable_one(c, prop="C20"):
+    """a payload value that the transport serializer can carry but the payload codec's own serializer cannot (a set, a datetime, a UUID over
+    CBOR): in each of the payload-carrying directions the operation may fail, but the clear payload must not go out on the wire instead"""
+    import datetime
+    import uuid
+    from autobahn.wamp.types import CallResult, RegisterOptions
+    from autobahn.wamp.exception import ApplicationError
+    value = {"set": lambda: {1, 2}, "frozenset": lambda: frozenset(["x"]), "datetime": lambda: datetime.datetime(2020, 1, 2, 3, 4, 5, tzinfo=datetime.timezone.utc),
+             "uuid": lambda: uuid.UUID(int=7), "nested-set": lambda: {"deep": [{3}]}}[c["value"]]()
+    p = Pair({"ser": c["ser"], "layout": "default"})
+    direction = c["direction"]
+    try:
+        o, r, M = p.o, p.r, p.M
+
+        def no_clear(world, n0, what):
+            for raw in world.t.sent_raw[n0:]:
+                try:
+                    data, _ = world.t._serializer.serialize(raw)
+                except Exception:
+                    continue        # cannot be put on the wire at all
+                if MARK.encode() in data:
+                    raise Violation("C20|%s|clear-payload-sent-after-encryption-failed" % what, "%s written with the clear marker in it (enc_algo=%r)" % (type(raw).__name__, getattr(raw, "enc_algo", None)), c)
+        if direction in ("publish", "call"):
+            n0 = len(o.t.sent_raw)
+            try:
+                if direction == "publish":
+                    o.call(lambda: o.session.publish("com.myapp.topic1", MARK, value, m=MARK + "-kw"))
+                else:
+                    o.track(o.call(lambda: o.session.call("com.myapp.proc1", MARK, value, m=MARK + "-kw")))
+            except (Violation, HarnessError):
+                raise
+            except Exception:
+                pass                # refusing the operation is fine
+            o.settle()
+            no_clear(o, n0, direction)
+            return
+        # responder side: a genuine encrypted request comes in, the endpoint answers with the unencodable value
+        def endpoint(*a, **k):
+            det = k.pop("details", None)
+            if direction == "progress" and det is not None and det.progress is not None:
+                det.progress(MARK, value)
+                return "done"
+            if direction == "error":
+                raise ApplicationError("com.myapp.error.e1", MARK, value, m=MARK + "-kw")
+            if direction == "yield-callresult":
+                return CallResult(MARK, value, m=MARK + "-kw")
+            return [MARK, value]
+        r.track(r.call(lambda: r.session.register(endpoint, "com.myapp.proc1", RegisterOptions(details_arg="details"))))
+        r.feed(M.Registered(r.t.sent[-1].request, 901))
+        o.track(o.call(lambda: o.session.call("com.myapp.proc1", 1, 2)))
+        call = o.t.sent[-1]
+        n0 = len(r.t.sent_raw)
+        err = r.feed(M.Invocation(777, 901, payload=call.payload, enc_algo=call.enc_algo, enc_key=call.enc_key, enc_serializer=call.enc_serializer,
+                                  receive_progress=True if direction == "progress" else None))
+        r.settle()
+        if err is not None:
+            raise Violation("C20|%s|onMessage-raised|%s" % (direction, exc_key(err)), repr(err), c)
+        no_clear(r, n0, direction)
+        terminal = [m for m in r.t.sent[n0:] if (type(m).__name__ == "Yield" and not m.progress) or type(m).__name__ == "Error"]
+        if len(terminal) > 1:
+            raise Violation("C20|%s|terminal-reply-count-%d" % (direction, len(terminal)), "the invocation was answered more than once: %r" % ([type(m).__name__ for m in r.t.sent[n0:]],), c)
+        if prop == "C10" and len(terminal) != 1:
+            # (C10's claim, checked from checks/c10: every INVOCATION gets exactly one terminal reply while the transport is up - also when the reply cannot be encrypted)
+            raise Violation("C10|encrypted|terminal-reply-count-%d|%s" % (len(terminal), direction), "encrypted invocation, endpoint outcome %r with a value the payload codec cannot serialize: replies %r" % (
+                direction, [type(m).__name__ for m in r.t.sent[n0:]]), dict(c, check="encrypted_unencodable"))
+    finally:
+        p.close()
+
+
+def unencodable(col):
+    for ser in ("cbor", "msgpack"):
+        for direction in ("publish", "call", "yield", "yield-callresult", "error", "progress"):
+            for value in ("set", "frozenset", "datetime", "uuid", "nested-set"):
+                c = {"check": "unencodable", "ser": ser, "direction": direction, "value": value}
+                try:
+                    unencodable_one(c)
+                except (Violation, HarnessError):
+                    raise
+                except Exception as e:
+                    from harness.core import in_autobahn
+                    if in_autobahn(e):
+                        raise Violation("C20|unencodable|exception|" + exc_key(e), repr(e), c)
+                    raise
+                col.case(True, enum=True, cls=["unencodable/%s/%s" % (direction, value)], sample=c)
+    col.exhaustive.append("C20 unencodable: 6 directions x 5 values the payload codec cannot serialize x 2 transport serializers")
+
+
 def flows(col, seed, n, xors):
     def body(c):
         try:
@@ -460,6 +548,10 @@ def flows(col, seed, n, xors):
 def replay(col, case):
     case = dec(case)
     c = case.get("case", case)
+    if c.get("check") == "unencodable":
+        unencodable_one(c)
+        col.case()
+        return
     c.pop("check", None)
     c.pop("tampered_variants", None)
     check_flow(c, 1)
